@@ -35,13 +35,18 @@ FILES = [S + f for f in ('lp_solver.py', 'model.py', 'fileIO.py', 'options_parse
         [G + f for f in ('generator.py', 'generator_ha_sm_hr.py', 'generator_shared.py', 'generator_spa.py', 'instance_options_parser.py')]
 SOLVER_CHECKS = ['C01', 'C03', 'C05', 'C02', 'C04', 'C11', 'C10', 'C06', 'C07', 'C14', 'C16', 'C18', 'C13', 'C09']
 GEN_CHECKS = ['C08', 'C12', 'C13', 'C15', 'C17', 'C09']
-ORDER = {
-    'lp_solver.py': ['C03', 'C01', 'C05', 'C04', 'C02', 'C11', 'C14', 'C16', 'C18', 'C09'],
-    'model.py': ['C11', 'C06', 'C01', 'C10', 'C03', 'C05', 'C14', 'C02', 'C04', 'C18', 'C07', 'C09'],
-    'fileIO.py': ['C10', 'C13', 'C01', 'C09', 'C02', 'C11'],
-    'options_parser.py': ['C16', 'C02', 'C03', 'C04', 'C18', 'C14', 'C07'],
-    'solver.py': ['C18', 'C14', 'C02', 'C07', 'C11', 'C01'],
-    'brute_force_solver.py': ['C07', 'C18', 'C09'],
+ORDER = {      # the checks that look at each file, most likely first (a survivor costs the whole list)
+    'lp_solver.py': ['C03', 'C01', 'C05', 'C04', 'C02', 'C14'],
+    'model.py': ['C11', 'C06', 'C01', 'C10', 'C03', 'C14', 'C18'],
+    'fileIO.py': ['C10', 'C13', 'C01', 'C09'],
+    'options_parser.py': ['C16', 'C02', 'C03'],
+    'solver.py': ['C18', 'C14', 'C02', 'C07'],
+    'brute_force_solver.py': ['C07', 'C18'],
+    'instance_options_parser.py': ['C15', 'C08'],
+    'generator_shared.py': ['C13', 'C17', 'C08', 'C12'],
+    'generator_spa.py': ['C08', 'C12', 'C09'],
+    'generator_ha_sm_hr.py': ['C08', 'C12', 'C09'],
+    'generator.py': ['C15', 'C08'],
 }
 
 OPS = {'<': ['<='], '<=': ['<'], '>': ['>='], '>=': ['>'], '==': ['!='], '!=': ['=='],
